@@ -1073,6 +1073,21 @@ func (f *e1func) flowBlock(b *cfg.Block, cur []*fstate, sites *[]*e1site) [][]*f
 			if sites != nil {
 				var pre map[*ast.CallExpr][]*fstate
 				cur, pre = f.inlineNode(cur, rs)
+				// calls evaluated by the return statement happened
+				var evs []*Term
+				for _, c := range eligibleCalls(rs, false) {
+					if tv, ok := f.info.Types[c.Fun]; ok && tv.IsType() {
+						continue
+					}
+					evs = append(evs, fact("called", f.tb.callTerm(c)))
+				}
+				if len(evs) > 0 {
+					for i, st := range cur {
+						if ns := st.with(evs...); ns != nil {
+							cur[i] = ns
+						}
+					}
+				}
 				f.doReturn(rs, cur, sites, pre)
 			}
 			continue
@@ -2381,6 +2396,47 @@ func builtinHolds(st *fstate, p *Term, b Bind) (bool, bool) {
 		if len(g.A) == 1 && !hasPV(g) {
 			return g.A[0].K == "const", true
 		}
+	case "neq":
+		// x != c holds when x is known to equal a different constant
+		if len(g.A) == 2 && !hasPV(g) {
+			for i := 0; i < 2; i++ {
+				x, c := g.A[i], g.A[1-i]
+				if c.K != "const" {
+					continue
+				}
+				for _, fc := range st.facts {
+					if fc.S != "eq" || len(fc.A) != 2 {
+						continue
+					}
+					for j := 0; j < 2; j++ {
+						if fc.A[j].Key() != x.Key() {
+							continue
+						}
+						o := fc.A[1-j]
+						ov, ok := constValueOf(o)
+						if !ok {
+							continue
+						}
+						cv, okc := constValueOf(c)
+						if !okc {
+							// a constant named in a specification pattern: resolve it in the package of the code's constant
+							if oc, isC := o.Obj.(*types.Const); isC && oc.Pkg() != nil {
+								name := c.S
+								if i := strings.LastIndex(name, "."); i >= 0 {
+									name = name[i+1:]
+								}
+								if pc, isPC := oc.Pkg().Scope().Lookup(name).(*types.Const); isPC && pc.Val() != nil {
+									cv, okc = pc.Val().ExactString(), true
+								}
+							}
+						}
+						if okc && ov != cv {
+							return true, true
+						}
+					}
+				}
+			}
+		}
 	case "lt":
 		// n < len(x) when len(x) is known to differ from 0..n (a length is never negative)
 		if len(g.A) == 2 && !hasPV(g) && g.A[0].K == "const" && g.A[1].K == "call" && g.A[1].S == "len" {
@@ -2560,4 +2616,19 @@ func (f *e1func) dump() string {
 		}
 	}
 	return sb.String()
+}
+
+
+// constValueOf: the value of a constant term (named constants by their value, literals as written).
+func constValueOf(t *Term) (string, bool) {
+	if t.K != "const" {
+		return "", false
+	}
+	if c, ok := t.Obj.(*types.Const); ok && c.Val() != nil {
+		return c.Val().ExactString(), true
+	}
+	if len(t.S) > 0 && (t.S[0] == '"' || (t.S[0] >= '0' && t.S[0] <= '9') || t.S[0] == '-') {
+		return t.S, true
+	}
+	return "", false
 }
